@@ -17,7 +17,12 @@ Fault paths: an async scope may carry a disposable whose `__aexit__` raises (`Fr
 becomes the exit reason, the task group is aborted (its members are cancelled) and the metrics context is
 still exited.  `Ev.cancel t` is `Task.cancel()` at a quiescent point (the task is suspended in a body or
 blocked in an exit): `CancelledError` unwinds every block of the task, each async block first cancelling and
-joining its members (`killSet`), each block's `MetricsContext.__exit__` runs; the task ends. -/
+joining its members (`killSet`), each block's `MetricsContext.__exit__` runs; the task ends.
+Failing enters: a disposable whose `__aenter__` raises (`openFailing`) or waits on a gate (`openGated`, later
+`release`d or cancelled): `ScopeContext.__aenter__` rolls back – task group exit, then the already registered
+metrics node is entered and left at once – so the scope counts as left and never blocks its ancestors.
+`threadCtor`: `ctx.scope(…)` called in a thread without event loop (in a copy of the context) raises before
+anything is registered: a no-op. -/
 namespace Haiway.ScopeRun
 open Haiway
 open Haiway.Completion (upd)
@@ -37,7 +42,8 @@ structure Task where
   inherited : Option Nat := none         -- ghost: `cur` when the task was created
   pending : Option (Nat × Bool × Bool) := none  -- a constructed, not yet entered scope object held by the task (id, async, disp)
   alive : Bool := false
-  blocked : Bool := false                -- inside `__aexit__`, waiting for the group members
+  blocked : Bool := false                -- inside `__aexit__` waiting for the group members, or inside `__aenter__`
+  entering : Option Nat := none          -- inside `__aenter__` of that scope, waiting for a disposable to enter
   memberOf : Option Nat := none
 deriving Repr
 
@@ -63,6 +69,10 @@ inductive Ev where
   | spawn (t : Nat) (member : Bool)                           -- `ctx.spawn` / `asyncio.create_task`
   | finishTask (t : Nat)
   | cancel (t : Nat)                                          -- `Task.cancel()` from outside, at a quiescent point
+  | openFailing (t : Nat) (spec : Logs.Spec)                  -- `async with ctx.scope(…, disposables=[raises in __aenter__])`
+  | openGated (t : Nat) (spec : Logs.Spec)                    -- … `disposables=[waits on a gate in __aenter__]`
+  | release (t : Nat)                                         -- the gate opens: the enter completes
+  | threadCtor (t : Nat)                                      -- `ctx.scope(…)` in a thread without event loop: RuntimeError
   | tick (dt : Nat)
 
 def canAct (s : Sys) (t : Nat) : Bool :=
@@ -111,7 +121,8 @@ def finishExit (s : Sys) (t : Nat) : Sys :=
 
 def blockedOwner (s : Sys) (g : Nat) : Option Nat :=
   (List.range s.ntasks).find? fun o =>
-    (s.tasks o).blocked && (match (s.tasks o).frames with | f :: _ => f.scope == g | [] => false)
+    (s.tasks o).blocked && (s.tasks o).entering.isNone &&
+      (match (s.tasks o).frames with | f :: _ => f.scope == g | [] => false)
 
 /-- leave every block of task `t` (innermost first); `fuel` = number of frames -/
 def finishFrames (s : Sys) (t : Nat) : Nat → Sys
@@ -129,10 +140,16 @@ def killSet (s : Sys) (seed : List Nat) : Nat → List Nat
         (match (s.tasks u).memberOf with | some g => groups.contains g | none => false)
     killSet s (seed ++ more) fuel
 
-/-- `CancelledError` unwinds task `t`: all its blocks are left, the task ends -/
+/-- the rollback of a failed `__aenter__`: the registered metrics node is entered and left at once -/
+def rollbackEnter (s : Sys) (id : Nat) : Sys := compStep (compStep s (.enter id)) (.finish id)
+
+/-- `CancelledError` unwinds task `t`: a pending enter is rolled back, all its blocks are left, the task ends -/
 def killTask (s : Sys) (t : Nat) : Sys :=
+  let s := match (s.tasks t).entering with
+    | some id => rollbackEnter s id
+    | none => s
   let s := finishFrames s t (s.tasks t).frames.length
-  let tk' : Task := { s.tasks t with alive := false, pending := none, blocked := false }
+  let tk' : Task := { s.tasks t with alive := false, pending := none, blocked := false, entering := none }
   { s with tasks := upd s.tasks t tk' }
 
 def killAll (s : Sys) (ts : List Nat) : Sys := ts.foldl killTask s
@@ -220,6 +237,25 @@ def step (s : Sys) : Ev → Sys
       -- members first, the cancelled task last: an owner joins its members before its own metrics exit
       releaseOwner (killAll s (killSet s [t] s.ntasks).reverse) g
     else { s with bad := true }
+  | .openFailing t spec =>
+    if canAct s t then rollbackEnter (construct s t spec) s.comp.size
+    else { s with bad := true }
+  | .openGated t spec =>
+    if canAct s t then
+      let id := s.comp.size
+      let s := construct s t spec
+      { s with tasks := upd s.tasks t { s.tasks t with entering := some id, blocked := true } }
+    else { s with bad := true }
+  | .release t =>
+    if decide (t < s.ntasks) && (s.tasks t).alive then
+      match (s.tasks t).entering with
+      | some id =>
+        let pend := (s.tasks t).pending
+        let s := enterScope s t id true false
+        { s with tasks := upd s.tasks t { s.tasks t with pending := pend, entering := none, blocked := false } }
+      | none => { s with bad := true }
+    else { s with bad := true }
+  | .threadCtor t => if canAct s t then s else { s with bad := true }
   | .tick dt => compStep s (.tick dt)
 
 def run (s : Sys) (evs : List Ev) : Sys := evs.foldl step s
